@@ -43,3 +43,11 @@ Print Assumptions C13_txn_atomic_unless_dirty.
 Example C13_conditional_not_vacuous :
   some_dirty false false db1 [] ss_clean = false /\ statuses false false db1 [] ss_clean = [true; false; false; true].
 Proof. split; [exact ss_clean_not_dirty | exact ss_clean_statuses]. Qed.
+
+(* refused DELETEs are clean failures of the code that exists, also with several targets and with
+   DELETE r, a: a transaction containing them commits exactly what it commits without them *)
+Example C13_refused_deletes_are_atomic :
+  some_dirty false false db3 [] ss_refused = false /\
+  statuses false false db3 [] ss_refused = [false; false; false; true] /\
+  dump_eqb (M_txn db3 ss_refused) (M_txn db3 [SSet 1%N [(1, CInt 5)]]) = true.
+Proof. exact ss_refused_clean. Qed.
